@@ -24,19 +24,24 @@ Lemma ts_apply_cases : forall g s l x, F s -> enabled g s l = true ->
 Proof.
   intros g s l x HF He.
   destruct l; unfold enabled in He; cbv beta iota in He; cbn [apply]; btrue.
-  all: try (left; grind_apply; fail).
+  - left; grind_apply.
+  - left; grind_apply.
   - (* LParseActivate *) autorewrite with proj. cbn. destruct (ex s l); autorewrite with proj; cbn; auto.
     rewrite ts_qr. destruct (qr_ok _ _ && _); cbn; auto. right; left; lia.
+  - left; grind_apply.
   - (* LAddTarget *) destruct (Nat.eqb t l); autorewrite with proj; cbn; auto.
     rewrite ts_qr. destruct (qr_ok _ _ && _); cbn; auto. right; left; lia.
   - (* LParseOk *) autorewrite with proj. cbn. destruct (ex s l); autorewrite with proj; cbn; auto.
     rewrite ts_qr. destruct (qr_ok _ _ && _); cbn; auto. right; left; lia.
+  - left; grind_apply.
   - (* LMarkSemi *) destruct (cas cas_noneed (ts s t)) as [new|] eqn:C; cbn; auto.
     assert (new = Semiactive) as -> by (destruct (ts s t); cbn in C; inversion C; reflexivity).
     unfold upd. destruct (Nat.eqb x t); auto. right; left; cbn; lia.
+  - left; grind_apply.
   - (* LAsyncQueueDep *) dasy s t Ea. dlist todo.
     destruct (ex s d); [|destruct (pst_eqb (pk s (g_pkg g d)) PParsed)]; cbn; autorewrite with proj; cbn; auto.
     rewrite ts_qr. destruct (qr_ok _ _ && _); cbn; auto. right; left; lia.
+  - left; grind_apply.
   - (* LAsyncResolveDep *) dasy s t Ea. destruct (ex s d); cbn; autorewrite with proj; cbn; auto.
     rewrite ts_qr. destruct (qr_ok _ _ && _); cbn; auto. right; left; lia.
   - (* LAsyncBeginWait *) dasy s t Ea. dlist todo. destruct err; cbn; autorewrite with proj; cbn; auto.
@@ -48,10 +53,19 @@ Proof.
     destruct (cas [cas_pending] (ts s t)) as [new|] eqn:C; cbn; auto.
     assert (new = Pending) as -> by (destruct (ts s t); cbn in C; inversion C; reflexivity).
     unfold upd. destruct (Nat.eqb x t); auto. right; left; cbn; lia.
+  - left; grind_apply.
+  - left; grind_apply.
+  - left; grind_apply.
   - (* LBuildStart *) cbn. unfold upd. destruct (Nat.eqb x t); auto. right; left; cbn; lia.
   - (* LBuildOk *) cbn. unfold upd. destruct (Nat.eqb x t); auto. right; left.
     unfold built_kind, st_eqb in *. destruct o; cbn in *; try discriminate; lia.
   - (* LBuildFail *) right; right. cbn. autorewrite with proj. reflexivity.
+  - left; grind_apply.
+  - left; grind_apply.
+  - left; grind_apply.
+  - left; grind_apply.
+  - left; grind_apply.
+  - left; grind_apply.
 Qed.
 
 Theorem F_reachable : forall g s, reachable g s -> F s.
@@ -70,14 +84,14 @@ Proof.
   intros s0 l Hr0 IH He [o [Hin Hb]].
   pose proof (trace_apply g s0 l He) as Ht.
   assert (Hold : In o (trace s0) -> failed (apply g s0 l) = true) by (intros; apply failed_mono, IH; eauto).
-  destruct l; try (destruct Ht as [Ht|[e Ht]]; rewrite Ht in Hin; [auto | destruct Hin as [<-|Hin]; [|auto]]).
-  all: try (cbn [apply]; grind_apply; fail).
-  - (* LDepFailed *) destruct Ht as [E1 E2]. rewrite E1 in Hin. destruct Hin as [<-|Hin]; [|auto].
-    apply (F_reachable g _ (reachable_step g s0 _ Hr0 He) t). rewrite E2. cbn. lia.
+  assert (Hnew : forall t r, trace (apply g s0 l) = OEnd t r :: trace s0 -> ts (apply g s0 l) t = st_of r -> failed (apply g s0 l) = true).
+  { intros t r E1 E2. rewrite E1 in Hin. destruct Hin as [<-|Hin]; [|auto].
+    destruct r; [discriminate| |]; apply (F_reachable g _ (reachable_step g s0 _ Hr0 He) t); rewrite E2; cbn; lia. }
+  destruct l; try (destruct Ht as [Ht|[e [Ht Hf]]]; [rewrite Ht in Hin; auto | exact Hf]).
+  - destruct Ht as [E1 E2]. apply (Hnew t RDepFailed); auto.
   - rewrite Ht in Hin. destruct Hin as [<-|Hin]; [discriminate|auto].
-  - destruct Ht as (E1 & E2 & E3). rewrite E1 in Hin. destruct Hin as [<-|Hin]; [discriminate|auto].
-  - destruct Ht as [E1 E2]. rewrite E1 in Hin. destruct Hin as [<-|Hin]; [|auto].
-    apply (F_reachable g _ (reachable_step g s0 _ Hr0 He) t). rewrite E2. cbn. lia.
+  - destruct Ht as (E1 & E2 & E3). eapply Hnew; [exact E1 | exact E2].
+  - destruct Ht as [E1 E2]. apply (Hnew t RFailed); auto.
 Qed.
 
 (* ---- nothing runs after the invocation has ended; every command that started has ended and is logged ---- *)
@@ -93,7 +107,7 @@ Proof.
   intros s0 l _ IH He Hx. pose proof (enabled_not_exited g s0 l He) as Hn.
   destruct l; try (exfalso; revert Hx; cbn [apply]; grind_apply; congruence).
   unfold enabled in He. btrue. cbn. unfold quiet. cbn.
-  repeat match goal with H : is_nil _ = true |- _ => apply is_nil_true in H end. auto.
+  repeat match goal with H : is_nil _ = true |- _ => apply is_nil_true in H end. repeat split; assumption.
 Qed.
 
 Theorem started_ended_at_exit : forall g s, reachable g s -> exited s = true ->
